@@ -44,11 +44,26 @@ func gen(r *harn.Rng, tier string) interface{} {
 	if r.Bool(0.25) {
 		np = 2
 	}
+	big := r.Bool(0.08)
+	if big {
+		// a queue larger than the default and a backlog that needs it
+		sc.Queue = r.Pick(65536, 200000)
+		sc.Burst = r.Pick(8000, 20000)
+		np = 1
+	}
 	for p := 0; p < np; p++ {
 		var as []arrival
-		for i, n := 0, r.Range(2, 25); i < n; i++ {
+		nArr := r.Range(2, 25)
+		if big {
+			nArr = r.Range(50, 150)
+		}
+		for i, n := 0, nArr; i < n; i++ {
 			var gap int64
-			switch r.Intn(8) {
+			k := r.Intn(8)
+			if big && i > 0 {
+				k = 3 // gaps of 1 ns .. 1 ms: tokens trickle in while the backlog builds up
+			}
+			switch k {
 			case 0, 1, 2:
 				gap = 0
 			case 3:
@@ -63,6 +78,9 @@ func gen(r *harn.Rng, tier string) interface{} {
 				gap = int64(r.Intn(30)) * 1e6
 			}
 			l := r.Pick(0, 4, 100, 500, 1000, 1200, 1500)
+			if big {
+				l = r.Pick(1000, 1200, 1500)
+			}
 			if r.Bool(0.1) {
 				l = sc.Burst + r.Pick(-1, 0, 1, 100)
 			}
@@ -77,6 +95,13 @@ func gen(r *harn.Rng, tier string) interface{} {
 		sc.Producers = append(sc.Producers, as)
 	}
 	sc.CloseAfterNs = int64(r.Pick(0, 0, 1000, 1000000, 1000000000))
+	if big {
+		// the filter forwards on arrivals only: a trickle of small datagrams afterwards lets the
+		// queue drain, so that datagrams accepted after a discarded one are seen leaving
+		for i, n := 0, r.Range(20, 60); i < n; i++ {
+			sc.Producers[0] = append(sc.Producers[0], arrival{GapNs: int64(r.Pick(5, 10, 20)) * 1e6, Len: 4})
+		}
+	}
 	if r.Bool(0.3) {
 		for i, n := 0, r.Range(1, 3); i < n; i++ {
 			if r.Bool(0.5) {
@@ -286,7 +311,7 @@ func run(env *simrt.Env, sci interface{}) {
 			}
 			if !laterForwarded {
 				env.Probe("left-waiting-at-close")
-				continue // still waiting in the queue when the filter was closed
+				continue // still waiting in the queue when the filter was closed (the filter works on arrivals only)
 			}
 			occ := 0
 			for _, e := range sents[:k] {
